@@ -650,9 +650,177 @@ func genStore(r *rand.Rand) Input {
 	return Input{Store: in}
 }
 
+// skewed families: one dimension of 1-4 keys against dimensions of 16-60 keys over a universe of 20-60 keys,
+// overlapping partially; the short one often holds a key absent from a long one immediately followed by a
+// common key (the place where a lookup-based intersection must not skip); every argument order
+func genDimSkewed(r *rand.Rand) Input {
+	nu := lib.Range(r, 20, 60)
+	univ := make([]string, nu)
+	for i := range univ {
+		univ[i] = fmt.Sprintf("k%02d", i)
+		if lib.Chance(r, 0.2) {
+			univ[i] += "x" // shared prefixes
+		}
+	}
+	nd := lib.Range(r, 2, 4)
+	ns := lib.Range(r, 1, 4)
+	if ns*8 > nu-2 {
+		ns = (nu - 2) / 8
+	}
+	// the short dimension: runs of adjacent universe keys
+	shortSet := map[int]bool{}
+	for len(shortSet) < ns {
+		i := r.Intn(nu)
+		shortSet[i] = true
+		if len(shortSet) < ns && i+1 < nu && lib.Chance(r, 0.7) {
+			shortSet[i+1] = true
+		}
+	}
+	d := &DimIn{}
+	var shortOps []DOp
+	for _, i := range r.Perm(nu) {
+		if shortSet[i] {
+			shortOps = append(shortOps, DOp{Key: univ[i]})
+		}
+	}
+	shortAt := r.Intn(nd)
+	for j := 0; j < nd; j++ {
+		if j == shortAt {
+			d.Ops = append(d.Ops, shortOps)
+			continue
+		}
+		// a long dimension: at least 8*ns keys (often many more); each key of the short one is in with prob 1/2
+		minLen := 8 * ns
+		if minLen < 16 {
+			minLen = 16
+		}
+		if minLen > nu-1 {
+			minLen = nu - 1
+		}
+		want := lib.Range(r, minLen, nu)
+		in := map[int]bool{}
+		for i := range shortSet {
+			if lib.Chance(r, 0.5) {
+				in[i] = true
+			}
+		}
+		for _, i := range r.Perm(nu) {
+			if len(in) >= want {
+				break
+			}
+			if !shortSet[i] {
+				in[i] = true
+			}
+		}
+		var ops []DOp
+		for _, i := range r.Perm(nu) {
+			if in[i] {
+				ops = append(ops, DOp{Key: univ[i]})
+			}
+		}
+		if lib.Chance(r, 0.2) && len(ops) > 0 { // a delete that does not change the set
+			ops = append(ops, DOp{Key: "zzz"}, DOp{Del: true, Key: "zzz"})
+		}
+		d.Ops = append(d.Ops, ops)
+	}
+	d.Orders = perms(nd)
+	if len(d.Orders) > 6 { // 4 dimensions: 6 of the 24 orders, the short one in every position
+		all := d.Orders
+		r.Shuffle(len(all), func(i, j int) { all[i], all[j] = all[j], all[i] })
+		var pick [][]int
+		seenPos := map[int]bool{}
+		for _, o := range all {
+			pos := 0
+			for i, x := range o {
+				if x == shortAt {
+					pos = i
+				}
+			}
+			if !seenPos[pos] || len(pick) < 6 && len(all) > 0 {
+				if !seenPos[pos] || len(pick) < 6 {
+					pick = append(pick, o)
+					seenPos[pos] = true
+				}
+			}
+			if len(pick) >= 6 && len(seenPos) == nd {
+				break
+			}
+		}
+		d.Orders = pick
+	}
+	return Input{Dim: d}
+}
+
+// one application with 16-30 series and a selective tag carried by a few adjacent series (one of them outside
+// the second, broad tag), plus another application sharing tag values that sorts before or after it
+func genStoreBig(r *rand.Rand) Input {
+	app := lib.Pick(r, []string{"app", "svc.api", "m"})
+	other := lib.Pick(r, []string{"ap", "app2", "b", "zzz", "a"})
+	n := lib.Range(r, 16, 30)
+	sel := lib.Pick(r, []string{"x", "x:y", "v/1"})
+	p := r.Intn(n - 1)
+	if lib.Chance(r, 0.25) {
+		p = 0
+	}
+	var pool []series
+	for i := 0; i < n; i++ {
+		s := series{app: app, tags: map[string]string{"id": fmt.Sprintf("%02d", i), "env": "prod"}}
+		if lib.Chance(r, 0.12) {
+			s.tags["env"] = "dev"
+		}
+		if i == p {
+			s.tags["t"] = sel
+			s.tags["env"] = "dev"
+		}
+		if i == p+1 || (i > p+1 && lib.Chance(r, 0.04)) {
+			s.tags["t"] = sel
+			s.tags["env"] = "prod"
+		}
+		pool = append(pool, s)
+	}
+	no := lib.Range(r, 1, 3)
+	for i := 0; i < no; i++ {
+		s := series{app: other, tags: map[string]string{"id": fmt.Sprintf("%02d", i), "env": lib.Pick(r, []string{"prod", "dev"})}}
+		if i == 0 || lib.Chance(r, 0.5) {
+			s.tags["t"] = sel
+		}
+		pool = append(pool, s)
+	}
+	in := &StoreIn{}
+	for _, j := range r.Perm(len(pool)) {
+		in.Ops = append(in.Ops, SOp{Put: pool[j].render(r, false), Stack: fmt.Sprintf("s%d", j), Count: uint64(lib.Range(r, 1, 5)),
+			Slot: lib.Range(r, 0, 30)})
+	}
+	if lib.Chance(r, 0.3) { // one delete of a single series away from the selective ones, and its re-ingest
+		j := (p + 5) % n
+		in.Ops = append(in.Ops, SOp{IsDel: true, Delete: pool[j].render(r, false)})
+		if lib.Chance(r, 0.5) {
+			in.Ops = append(in.Ops, SOp{Put: pool[j].render(r, false), Stack: fmt.Sprintf("s%d", j), Count: 7, Slot: 3})
+		}
+	}
+	q := func(a string, kv ...string) string {
+		t := series{app: a, tags: map[string]string{}}
+		for i := 0; i+1 < len(kv); i += 2 {
+			t.tags[kv[i]] = kv[i+1]
+		}
+		return t.render(r, false)
+	}
+	in.Selectors = []string{q(app), q(app, "t", sel), q(app, "t", sel, "env", "prod"), q(app, "env", "prod", "t", sel),
+		q(app, "t", sel, "env", "dev"), q(app, "env", "dev"), q(other, "t", sel), q(other),
+		q(app, "t", sel, "env", "prod", "id", fmt.Sprintf("%02d", p+1)), q(app, "id", fmt.Sprintf("%02d", p))}
+	in.ValueKeys = []string{"t", "env", "id"}
+	in.DimNames = []string{"__name__:" + app, "__name__:" + other, "t:" + sel, "env:prod", "env:dev"}
+	return Input{Store: in}
+}
+
 func gen(r *rand.Rand, idx int, tier string) Input {
-	if idx%4 == 0 {
+	switch {
+	case idx%20 == 0:
+		return genStoreBig(r)
+	case idx%4 == 0:
 		return genStore(r)
+	case idx%8 == 1:
+		return genDimSkewed(r)
 	}
 	return genDim(r)
 }
